@@ -184,7 +184,21 @@ func genIV(t *rapid.T) []byte {
 		}
 		return b
 	}
-	switch uni(t, 8, "ivkind") {
+	switch uni(t, 11, "ivkind") {
+	case 8: // leading zero bytes: 8-byte counter values as a packager that starts at 0 or 1 produces them
+		b := make([]byte, 8)
+		b[7] = byte(uni(t, 4, "ivsmall"))
+		return b
+	case 9:
+		b := make([]byte, 16)
+		b[15] = byte(uni(t, 4, "ivsmall"))
+		return b
+	case 10: // a few zero bytes in front
+		b := r8("iv8")
+		for i := 0; i < 1+uni(t, 6, "ivzeros"); i++ {
+			b[i] = 0
+		}
+		return b
 	case 0, 1:
 		return r8("iv8")
 	case 2:
